@@ -287,7 +287,7 @@ GROUPS = {
     'relay_recv_bx': dict(
         unit='relay_recv.rs', props=['C17'],
         bounds=dict(quick=['2', '0'], thorough=['3', '0']),
-        space='every queue of at most {0} batches from 42 (content lengths 0/1/3/4/5/8/9/12 x segment size none/1/2/4/5/9 where the batch holds more than one segment), for receive '
+        space='every queue of at most {0} batches (content lengths 0/1/3/4/5/8/9/12 x segment size none/1/2/4/5/9 where the batch holds more than one segment), for receive '
               'buffers of 1/4/8/16 bytes and 1/2/3 slots; poll_recv is called until the input is drained, with a waker that counts wake-ups and a queue that records whether it '
               'kept the waker',
         nontrivial='queues with at least one multi-segment batch',
